@@ -6,6 +6,7 @@ import (
 	"fmt"
 	"net/http"
 	"reflect"
+	"strconv"
 	"strings"
 	"testing"
 	"time"
@@ -17,27 +18,31 @@ import (
 // C07: SingleFlight / LockedCalls / ResourceManager.
 //
 // c07_test.go   history model, workload generator (plans, result / error / panic kinds, key
-//               shapes, nested calls, several objects per run), body, engine config
+//               shapes, nested calls, several objects per run, long-lived objects: churn of
+//               quick calls on other keys), body, engine config
 // sf_test.go    SingleFlight member and its oracle
 // lc_test.go    LockedCalls member and its oracle
 // rm_test.go    ResourceManager member (GetResource, Inject, Close) and its oracle
 
 type exec struct {
-	id         int
-	key        string // world key: object index + key index (see plan.wkey)
-	leader     int    // call index
-	start, end int    // logical clock; end==0 while running
-	startT     time.Time
-	endT       time.Time
-	val        any
-	err        error
-	panicked   bool
-	panicVal   any
-	shared     int // SingleFlight: callers that received this execution's result without running
+	id          int
+	g           int    // object index
+	key         string // world key: object index + key index (see plan.wkey)
+	leader      int    // call index
+	start, end  int    // logical clock; end==0 while running
+	startT      time.Time
+	endT        time.Time
+	val         any
+	err         error
+	panicked    bool
+	panicVal    any
+	shared      int // SingleFlight: callers that received this execution's result without running
+	doneAtStart int // executions completed on its object when it started
 }
 
 type call struct {
 	id       int
+	g        int    // object index
 	key      string // world key
 	raw      string // key as passed to go-zero
 	inv, ret int
@@ -59,10 +64,18 @@ type world struct {
 	execs  []*exec
 	calls  []*call
 	active map[string]*exec
+	// the same history by world key (histories of long-lived objects have hundreds of entries)
+	execsBy map[string][]*exec
+	callsBy map[string][]*call
+	done    map[int]int // executions completed, per object
 	// mkVal produces the value of a successful execution (nil: the generic value kinds)
 	mkVal func(e *exec, vk int) any
 	// nested performs a call made from inside a supplied function
 	nested func(p *plan)
+}
+
+func newWorld(r *simrt.Run) *world {
+	return &world{r: r, t0: time.Now(), active: map[string]*exec{}, execsBy: map[string][]*exec{}, callsBy: map[string][]*call{}, done: map[int]int{}}
 }
 
 func (w *world) tick() int { w.clk++; return w.clk }
@@ -289,6 +302,203 @@ type env struct {
 	nestOn     bool
 	burst      bool
 	injectOn   bool
+	churn      *churn // long-lived object: quick calls on other keys of one object (nil: off)
+}
+
+// churn: the object ch.g serves a history of quick calls (no virtual time, no yields) on keys
+// other than the clients' keys: ch.pre of them made one after the other by the main task before
+// the clients start, the others by churn tasks running alongside the clients (each: think,
+// then segments of back-to-back quick calls separated by pauses).
+type churnSeg struct {
+	n     int
+	pause time.Duration
+}
+
+type churnTask struct {
+	think time.Duration
+	segs  []churnSeg
+}
+
+type churn struct {
+	g        int
+	total    int
+	pre      int
+	tasks    []churnTask
+	keyMode  int // 0 a fresh key for every quick call, 1 each churn task cycles through 3 keys of its own, 2 all of them cycle through the same 3 keys
+	errEvery int // every errEvery-th quick call returns an error (0: none)
+	made     int
+}
+
+var churnKeyModes = []string{"fresh-key-per-call", "3-keys-per-churn-task", "3-keys-shared-by-churn-tasks"}
+
+func (ch *churn) String() string {
+	if ch == nil {
+		return "off"
+	}
+	s := fmt.Sprintf("object %d, %d quick calls (%d before the clients), keys: %s, error every %d", ch.g, ch.total, ch.pre, churnKeyModes[ch.keyMode], ch.errEvery)
+	for i, ct := range ch.tasks {
+		s += fmt.Sprintf("; churn task %d: think %v", i, ct.think)
+		for _, sg := range ct.segs {
+			s += fmt.Sprintf(", %d calls, pause %v", sg.n, sg.pause)
+		}
+	}
+	return s
+}
+
+// drawChurnCount: the length of a churn history, from a mix of small values, values around
+// landmarks (powers of two and round numbers, where implementations tend to switch behaviour:
+// resize, rebuild, sample, wrap) and large values.
+func drawChurnCount(t *simrt.Tape) int {
+	switch t.Intn(4) {
+	case 0:
+		return t.Range(1, 40)
+	case 1, 2:
+		lm := []int{256, 512, 128, 256, 512, 64, 100, 200, 384, 500, 640}[t.Intn(11)]
+		return lm - 8 + t.Intn(11) // lm-8 .. lm+2: the clients' own calls make up for a few
+	}
+	return t.Range(41, 700)
+}
+
+// split n >= parts >= 1 into parts positive shares (draw 0: 1, 1, ..., rest)
+func splitCount(t *simrt.Tape, n, parts int) []int {
+	out := make([]int, parts)
+	for i := 0; i < parts; i++ {
+		out[i] = n
+		if i < parts-1 {
+			out[i] = 1 + t.Intn(n-(parts-1-i))
+		}
+		n -= out[i]
+	}
+	return out
+}
+
+func (ev *env) drawChurn(r *simrt.Run, tier string) {
+	t := ev.t
+	if ev.burst || !t.Chance(1, 12) {
+		return
+	}
+	ch := &churn{}
+	ev.churn = ch
+	if ev.nGroups > 1 {
+		ch.g = t.Intn(ev.nGroups)
+	}
+	ch.total = drawChurnCount(t)
+	during := 0
+	switch t.Intn(3) {
+	case 0:
+		ch.pre = ch.total
+	case 1:
+		during = ch.total
+	default:
+		ch.pre = t.Intn(ch.total + 1)
+		during = ch.total - ch.pre
+	}
+	if during > 0 {
+		maxC := 2
+		if tier == "thorough" {
+			maxC = 3
+		}
+		n := min(1+t.Intn(maxC), during)
+		for _, share := range splitCount(t, during, n) {
+			ct := churnTask{think: drawDur(t) / 2}
+			segs := splitCount(t, share, min(1+t.Intn(3), share))
+			for j, m := range segs {
+				sg := churnSeg{n: m}
+				if j < len(segs)-1 {
+					sg.pause = drawDur(t) / 2
+				}
+				ct.segs = append(ct.segs, sg)
+			}
+			ch.tasks = append(ch.tasks, ct)
+		}
+	}
+	ch.keyMode = t.Intn(3)
+	if t.Chance(1, 3) {
+		ch.errEvery = []int{7, 3}[t.Intn(2)]
+	}
+	// the history is long already: fewer ordinary clients
+	ev.nTasks = min(ev.nTasks, 4)
+	r.Probe("churn-long-lived-object")
+	if ch.pre > 0 {
+		r.Probe("churn-before-the-clients")
+	}
+	if len(ch.tasks) > 0 {
+		r.Probe("churn-alongside-the-clients")
+	}
+	if len(ch.tasks) > 1 {
+		r.Probe("churn-tasks-2-or-more")
+	}
+	switch {
+	case ch.total <= 40:
+		r.Probe("churn-1-to-40-quick-calls")
+	case ch.total < 250:
+		r.Probe("churn-41-to-249-quick-calls")
+	case ch.total < 500:
+		r.Probe("churn-250-to-499-quick-calls")
+	default:
+		r.Probe("churn-500-or-more-quick-calls")
+	}
+	r.Probe("churn-" + churnKeyModes[ch.keyMode])
+	if ch.errEvery > 0 {
+		r.Probe("churn-quick-calls-returning-errors")
+	}
+}
+
+// quickPlan is the i-th quick call of churn task who (-1: the main task, before the clients).
+func (ev *env) quickPlan(who, i int) *plan {
+	ch := ev.churn
+	var kid int
+	switch ch.keyMode {
+	case 0:
+		kid = (who+1)*1000 + i
+	case 1:
+		kid = (who+1)*3 + i%3
+	default:
+		kid = i % 3
+	}
+	p := &plan{g: ch.g, ki: 100 + kid, key: ev.keys[0] + "#q" + strconv.Itoa(kid), ex: i%2 == 1}
+	ch.made++
+	if ch.errEvery > 0 && ch.made%ch.errEvery == 0 {
+		p.out.kind = 1
+	}
+	return p
+}
+
+// churnBefore makes the quick calls that precede the clients (main task).
+func (ev *env) churnBefore(invoke func(p *plan)) {
+	if ev.churn == nil {
+		return
+	}
+	for i := 0; i < ev.churn.pre; i++ {
+		invoke(ev.quickPlan(-1, i))
+	}
+}
+
+// churnStart starts the churn tasks; the caller joins them together with the clients.
+func (ev *env) churnStart(r *simrt.Run, invoke func(p *plan)) []*simrt.Task {
+	if ev.churn == nil {
+		return nil
+	}
+	var tasks []*simrt.Task
+	for who, ct := range ev.churn.tasks {
+		who, ct := who, ct
+		tasks = append(tasks, r.Go(fmt.Sprintf("churn%d", who), func() {
+			if ct.think > 0 {
+				r.Sleep(ct.think)
+			}
+			i := 0
+			for _, sg := range ct.segs {
+				for k := 0; k < sg.n; k++ {
+					invoke(ev.quickPlan(who, i))
+					i++
+				}
+				if sg.pause > 0 {
+					r.Sleep(sg.pause)
+				}
+			}
+		}))
+	}
+	return tasks
 }
 
 func drawEnv(r *simrt.Run, tier string, withEx bool) *env {
@@ -328,6 +538,7 @@ func drawEnv(r *simrt.Run, tier string, withEx bool) *env {
 	if ev.burst {
 		r.Probe("burst-9-or-more-callers")
 	}
+	ev.drawChurn(r, tier)
 	return ev
 }
 
@@ -415,16 +626,26 @@ func (ev *env) drawPlans(withEx bool) [][]*plan {
 func (ev *env) sample(component string, plans [][]*plan) map[string]any {
 	return map[string]any{"component": component, "tasks": ev.nTasks, "keys": ev.nKeys, "calls_per_task": ev.perTask,
 		"objects": ev.nGroups, "key_style": keyStyleNames[ev.keyStyle], "rich_results": ev.rich, "panics": ev.allowPanic,
-		"nested_calls": ev.nestOn, "burst": ev.burst, "first_task_plan": fmt.Sprintf("%v", plans[0])}
+		"nested_calls": ev.nestOn, "burst": ev.burst, "churn": ev.churn.String(), "first_task_plan": fmt.Sprintf("%v", plans[0])}
 }
 
 // ---------------------------------------------------------------------------------------------
 
 func (w *world) newCall(p *plan) *call {
-	c := &call{id: len(w.calls), key: p.wkey(), raw: p.key}
+	c := &call{id: len(w.calls), g: p.g, key: p.wkey(), raw: p.key}
 	w.calls = append(w.calls, c)
+	w.callsBy[c.key] = append(w.callsBy[c.key], c)
 	c.inv = w.tick()
 	c.invT = time.Now()
+	if a := w.active[c.key]; a != nil {
+		// a caller arriving on a key with an execution in flight, on an object with a history
+		if w.done[c.g] >= 250 {
+			w.r.Probe("late-caller-on-object-with-250-or-more-completed-executions")
+		}
+		if w.done[c.g]-a.doneAtStart >= 64 {
+			w.r.Probe("late-caller-after-64-or-more-executions-completed-during-the-flight")
+		}
+	}
 	return c
 }
 
@@ -432,8 +653,9 @@ func (w *world) newCall(p *plan) *call {
 // scheduling points, optionally calls into the component again (another key), and produces the
 // planned result.
 func (w *world) runFn(c *call, p *plan, gate chan struct{}) (any, error) {
-	e := &exec{id: len(w.execs), key: c.key, leader: c.id, start: w.tick(), startT: time.Now()}
+	e := &exec{id: len(w.execs), g: c.g, key: c.key, leader: c.id, start: w.tick(), startT: time.Now(), doneAtStart: w.done[c.g]}
 	w.execs = append(w.execs, e)
+	w.execsBy[c.key] = append(w.execsBy[c.key], e)
 	c.ownRuns++
 	c.ownExec = e
 	if other := w.active[c.key]; other != nil {
@@ -462,6 +684,7 @@ func (w *world) runFn(c *call, p *plan, gate chan struct{}) (any, error) {
 	}
 	e.end = w.tick()
 	e.endT = time.Now()
+	w.done[e.g]++
 	return w.finish(e, p.out)
 }
 
@@ -481,8 +704,8 @@ func overlaps(a, b *call) bool {
 // executions c may have shared without running its own function).
 func (w *world) sharedPanicked(c *call) []*exec {
 	var out []*exec
-	for _, e := range w.execs {
-		if e.key == c.key && e.panicked && e.leader != c.id && overlaps(c, w.calls[e.leader]) {
+	for _, e := range w.execsBy[c.key] {
+		if e.panicked && e.leader != c.id && overlaps(c, w.calls[e.leader]) {
 			out = append(out, e)
 		}
 	}
@@ -546,6 +769,8 @@ var stallOn bool
 func config(t *simrt.Tape, tier string) simrt.Config {
 	c := simharness.DefaultConfig(t, tier)
 	stallOn = c.StallPerMille > 0
+	// a long-lived object's history (several hundred quick calls) needs more scheduling points
+	c.MaxSteps = 40000
 	return c
 }
 
